@@ -307,6 +307,11 @@ def run(ctx):
              'removed first', floor=16)
     for fam in SA:
         msgpath.reassembly(ctx, SERVER[fam], True)
+    ctx.rule('C01.R5', 'the pending packet of one transport shares no '
+             'reassembly state with other packets (fresh attachment list and '
+             'count per packet) (shared rule)', floor=2)
+    from .c01 import r5b_per_packet_state
+    r5b_per_packet_state(ctx)
     ctx.rule('C05.R8', 'engine.io dispatches one client\'s messages in '
              'order (async_handlers=False)', floor=1)
     r8_engineio_ordered(ctx)
